@@ -364,6 +364,8 @@ def gen_ops(rng, isa, nk, tier, faults=True):
                     nf += 1
                 if i > 0 and rng.random() < 0.6:
                     p["start_after"] = {"proc": rng.randrange(i), "mut": rng.choice([1, 2, 3, 5, 8, 12])}
+                if faults and "fault" not in p and rng.random() < 0.08:
+                    p["edit_at"] = {"yml_open": rng.choice([2, 3, 3, 4]), "kind": rng.choice(["semantic", "header"])}
                 procs_.append(p)
             ops.append({"op": "run_group", "procs": procs_})
         elif r < 0.53:
@@ -410,6 +412,10 @@ def template_histories(rng, nk):
         "cold_warm_warm": [run(), run(), run(2)],
         "racing_cold_then_warm": [run(rng.choice([2, 3, 4])), run()],
         "home_cache_readonly_dir": [ro, run(), run(), sem, run(), run()],
+        "edit_during_cold_run": [{"op": "wipe", "where": "both"},
+                                 run(edit_at={"yml_open": rng.choice([2, 3, 3, 4]), "kind": rng.choice(["semantic", "header"])}),
+                                 run(), run(2), sem, run()],
+        "edit_during_racing_cold_runs": [run(2, edit_at={"yml_open": 3, "kind": "semantic"}), run(), run()],
         "racing_cold_home_cache": [ro, run(rng.choice([2, 3, 4])), run(), sem, run(2), run()],
         "isa_file_rehashed": [run(), {"op": "edit_isa"}, run(2), ro, {"op": "edit_isa"}, run(2), run()],
         "home_cache_then_writable": [ro, run(), rw, run(), sem, ro, run(), run()],
@@ -507,6 +513,14 @@ class Episode:
                 t = spawn_osaca(sim, fs, self.m, name, argvs, records, gates, p.get("fault"), wait_for, self.pid)
                 t.attrs["gates"] = gates
                 tasks[name] = t
+                ea = p.get("edit_at")
+                if ea and not os.path.exists(self.m.shadow_path):
+                    # the model file is edited by somebody else while this process is between two of its
+                    # own reads of it (hash / parse / hash-for-cache-write / report header)
+                    def action(kind=ea["kind"]):
+                        self.apply_edit(kind)
+                        self.group_versions.append(self.m.effective_model_text())
+                    t.attrs["fs_hook"] = {"op": "open-r", "path": self.m.model_path, "n": ea["yml_open"], "action": action}
             # long-lived processes: perform the edits between their analyses
             for p in plan:
                 t = tasks[p["name"]]
@@ -622,6 +636,13 @@ class Episode:
                     continue
                 (est, erep), kname = exp
                 self.agg.runs += 1
+                if len(getattr(self, "group_versions", [])) > 1 and rec["status"] == "ok":
+                    # the model changed while this group ran: a run of the group may have seen any of the
+                    # versions (it is in flight); only later groups are held to the final content
+                    opts = p.get("options", rec_opts(rec))
+                    alts = [reference(self.arch, self.isa, v, self.isa_text, kname, opts) for v in self.group_versions]
+                    if any(a[0] == "ok" and rec["report"] == a[1] for a in alts):
+                        continue
                 facts = {"concurrent": concurrent, "faulted_self": fired, "after_fault": self.faulted_before,
                          "kernel": kname, "arch": self.arch, "i": rec["i"]}
                 if rec["status"] in ("killed", "aborted", "running"):
@@ -670,10 +691,16 @@ class Episode:
                     for i, p in enumerate(op["procs"]):
                         plan.append({"name": "g%dp%d" % (gi, i),
                                      "analyses": [(p["kernel"], p["options"], None, self.expected(p["kernel"], p["options"]))],
-                                     "fault": p.get("fault"), "start_after": p.get("start_after")})
+                                     "fault": p.get("fault"), "start_after": p.get("start_after"),
+                                     "edit_at": p.get("edit_at"), "kernel": p["kernel"], "options": p["options"]})
                     gi += 1
+                    before = self.m.effective_model_text()
+                    self.group_versions = [before]
                     recs, exps, tasks = self.simulate(plan)
                     self.judge(recs, exps, tasks, plan, op.get("tail", False))
+                    if len(self.group_versions) > 1:
+                        self.prev_ref_model = before
+                    self.group_versions = []
                     self.agg.stats["op_run_group_n%d" % len(plan)] += 1
                     self.note_cache_use(tasks)
                 elif kind == "long_lived":
